@@ -146,7 +146,18 @@ def volt_expr(v, remap):
     return out
 
 
-def build_template(t):
+def build_template(t, memo=None):
+    """memo (a dict): structurally equal sub-trees become the very same template OBJECT (case flag `share`)"""
+    if memo is not None:
+        import json
+        key = json.dumps(t, sort_keys=True)
+        if key not in memo:
+            memo[key] = _build_template(t, memo)
+        return memo[key]
+    return _build_template(t, None)
+
+
+def _build_template(t, memo):
     from qupulse.pulses import ConstantPT, SequencePT, RepetitionPT, ForLoopPT, MappingPT
     k = t['t']
     if k == 'hold':
@@ -166,13 +177,13 @@ def build_template(t):
             pt = MappingPT(pt, parameter_mapping=pm, allow_partial_parameter_mapping=True)
         return pt
     if k == 'seq':
-        return SequencePT(*[build_template(x) for x in t['l']])
+        return SequencePT(*[build_template(x, memo) for x in t['l']])
     if k == 'rep':
-        return RepetitionPT(build_template(t['body']), t['n'])
+        return RepetitionPT(build_template(t['body'], memo), t['n'])
     if k == 'iter':
-        return ForLoopPT(build_template(t['body']), t['idx'], (t['start'], t['stop'], t['step']))
+        return ForLoopPT(build_template(t['body'], memo), t['idx'], (t['start'], t['stop'], t['step']))
     if k == 'remap':
-        return MappingPT(build_template(t['body']),
+        return MappingPT(build_template(t['body'], memo),
                          parameter_mapping={t['idx']: '(%s)*%s + (%s)' % (_num_repr(t['scale'], True), t['idx'],
                                                                           _num_repr(t['shift'], True))},
                          allow_partial_parameter_mapping=True)
@@ -619,6 +630,14 @@ def _direct_volt(v):
     LinSpaceBuilder.inner_scope injects), in several operator orders (`dstyle`): reaches __radd__ / __rsub__ / __neg__ /
     __truediv__ of SimpleExpression, which the rendering of the templates by sympy never produces"""
     from qupulse.program import SimpleExpression
+    import numpy as np
+    if v.get('np'):
+        # numpy scalar types (float32 is exact on the dyadic values used, unsigned / small ints for int voltages)
+        if v['k'] == 'plain':
+            return np.float32(float(F(v['v'])))
+        if v['k'] == 'int':
+            return np.uint8(v['v']) if 0 <= v['v'] < 256 else np.int16(v['v'])
+        return SimpleExpression(np.float64(float(F(v['base']))), {n: np.float32(float(F(c))) for n, c in v['coefs'].items()})
     if v['k'] == 'plain':
         return float(F(v['v']))
     if v['k'] == 'int':
@@ -658,10 +677,19 @@ def drive_builder(builder, t):
             for x in t['l']:
                 drive_builder(b, x)
     elif k == 'rep':
-        for b in builder.with_repetition(t['n']):
+        n = t['n']
+        if t.get('np'):
+            import numpy as np
+            n = np.uint8(n) if t['np'] == 8 else np.uint64(n)
+        for b in builder.with_repetition(n):
             drive_builder(b, t['body'])
     elif k == 'iter':
-        for b in builder.with_iteration(t['idx'], range(t['start'], t['stop'], t['step'])):
+        if t.get('np'):
+            import numpy as np
+            r = range(np.int64(t['start']), np.int16(t['stop']), np.int8(t['step']))
+        else:
+            r = range(t['start'], t['stop'], t['step'])
+        for b in builder.with_iteration(t['idx'], r):
             drive_builder(b, t['body'])
     else:
         raise ValueError(k)
@@ -677,7 +705,7 @@ def run_impl(case):
         return run_impl_dur(case)
     try:
         with vlib.time_limit(20):
-            pt = build_template(case['tree'])
+            pt = build_template(case['tree'], {} if case.get('share') else None)
             params = params_of(case['tree'])
             default = pt.create_program(parameters=params)
             if default is None:
@@ -692,7 +720,7 @@ def run_impl(case):
     try:
         with vlib.time_limit(20):
             if not case.get('reuse'):
-                pt = build_template(case['tree'])
+                pt = build_template(case['tree'], {} if case.get('share') else None)
             if case.get('direct'):
                 builder = LinSpaceBuilder(tuple(chans))
                 drive_builder(builder, case['tree'])
